@@ -476,6 +476,8 @@ class Sim:
                 if not isfile(st["p"]) or self.pending_paths & {st["p"]}:
                     return "skip"
                 W.get_file(st["p"]).write(st["text"])
+                if st["p"].endswith(".py") and not st["p"].endswith("__init__.py"):
+                    self.last_written = st["p"]
             elif a == "c_create_module":
                 if not isdir(st["dir"]) or (st["dir"] + "/" if st["dir"] else "") + st["name"] + ".py" in t:
                     return "skip"
@@ -922,6 +924,8 @@ class CoherenceEngine(Engine):
             n = rng.randint(1, 3)
             return "".join(rng.choice(pool) for _ in range(n))
 
+        if actor == "client" and getattr(sim, "last_written", None) in t and rng.random() < 0.07:
+            return {"a": "c_remove", "p": sim.last_written, "dt": dt}  # a module just rewritten through rope is removed
         if actor == "client" and sim.graves and rng.random() < 0.3:
             # a path that was vacated through rope is occupied again - by a new, not yet written module,
             # by another module renamed to that name, or by a new package of the removed one's name
@@ -929,7 +933,7 @@ class CoherenceEngine(Engine):
             par = lambda q: q.rsplit("/", 1)[0] if "/" in q else ""  # noqa: E731
             if g[0] == "f" and g[1] not in t and (par(g[1]) == "" or par(g[1]) in t):
                 others = [q for q in pyfiles if not q.endswith("__init__.py") and q != g[1]]
-                if others and rng.random() < 0.5:
+                if others and rng.random() < 0.35:
                     return {"a": "c_rename_file", "p": rng.choice(others), "q": g[1], "dt": dt}
                 return {"a": "c_create_module", "dir": par(g[1]), "name": g[1].rsplit("/", 1)[-1][:-3], "text": None, "dt": dt}
             if g[0] == "d" and g[1] not in t and (par(g[1]) == "" or par(g[1]) in t):
@@ -974,6 +978,9 @@ class CoherenceEngine(Engine):
                     p = rng.choice(nonmod)
                     q = p.rsplit(".", 1)[0] + ".py"
                 return {"a": "c_rename_file", "p": p, "q": q, "dt": dt}
+            if k == "remove" and getattr(sim, "last_written", None) in t and rng.random() < 0.35:
+                # a module that was just rewritten through rope is removed
+                return {"a": "c_remove", "p": sim.last_written, "dt": dt}
             if k == "remove" and (files or len(dirs) > 1):
                 if files and rng.random() < 0.3:
                     return {"a": "c_rename_to_ignored", "p": rng.choice(files), "dt": dt}
